@@ -10,7 +10,7 @@ from cgsim import gen as G, ref
 from cgsim.core import fp
 
 ID = "C07"
-QUICK = dict(worlds=16, runs=2500, seconds=25)
+QUICK = dict(worlds=16, runs=2500, seconds=15)
 THOROUGH = dict(worlds=256, runs=6000, seconds=28)
 
 BBTYPES = {"bbA": [["a", "b"], ["y"]], "bbB": [["d"], ["q", "qn"]], "bbC": [["p"], ["z"]],
